@@ -6,4 +6,6 @@ import Codec.Sha256
 import Codec.Parse
 import Codec.GenEndpoints
 import Codec.Spec
+import Codec.Examples
 import Codec.Lemmas
+import Codec.Props
